@@ -24,10 +24,10 @@ def tier_opts(opts, tier):
     return out
 
 
-def run_gosym_one(entry, ovfile, tmp, o, solver, fix, tag):
+def run_gosym_one(entry, ovfile, tmp, o, solver, fix, tag, tier="quick"):
     out = os.path.join(tmp, entry["entry"] + tag + ".json")
     cmd = [os.path.join(BIN, "gosym"), "-dir", REPO, "-overlay", ovfile, "-pkg", "./" + entry["pkg"], "-entry", entry["entry"],
-           "-out", out, "-known", KNOWN_FILE, "-solver", solver]
+           "-out", out, "-known", KNOWN_FILE, "-solver", solver, "-tier", tier]
     for k in ("unwind", "maxpaths", "wall", "concr-cap", "feas-timeout", "obl-timeout", "maxsteps"):
         if k in o:
             cmd += ["-" + k, o[k]]
@@ -101,11 +101,20 @@ def gosym_jobs(entry, tier):
     o = tier_opts(entry["opts"], tier)
     if o.get("tier") == "thorough" and tier == "quick":
         return None, []
+    only = os.environ.get("VERIF_ONLY")  # debugging aid: "Entry" or "Entry:3,7" restricts what runs
+    if only:
+        oe, _, parts = only.partition(":")
+        if oe != entry["entry"]:
+            return None, []
     sp = o.get("split")
     if not sp:
         return o, [("", "")]
     name, _, n = sp.partition(":")
-    return o, [("%s=%d" % (name, i), "_%s%d" % (name, i)) for i in range(int(n))]
+    jobs = [("%s=%d" % (name, i), "_%s%d" % (name, i)) for i in range(int(n))]
+    if only and parts:
+        keep = set(parts.split(","))
+        jobs = [j for j in jobs if j[0].split("=")[1] in keep]
+    return o, jobs
 
 
 def build_replay_binary(pkg, entries, ovmap, tmp):
@@ -143,7 +152,7 @@ REPLAY_RE = re.compile(r'REPLAY-RESULT harness=(\S+) outcome=(\S+) detail="((?:[
 def native_replay(binp, entry, model, tmp, tag):
     rf = os.path.join(tmp, "rp_%s_%s.json" % (entry, tag))
     json.dump({"harness": entry, "model": model}, open(rf, "w"))
-    env = dict(GOENV, VERIF_REPLAY=rf, VERIF_ENTRY=entry)
+    env = dict(GOENV, VERIF_REPLAY=rf, VERIF_ENTRY=entry, VERIF_TIER=os.environ.get("VERIF_TIER_CURRENT", "quick"))
     try:
         r = subprocess.run([binp, "-test.run", "^TestVerifReplay$", "-test.timeout", "120s"], env=env, capture_output=True, text=True, timeout=180,
                            cwd=os.path.dirname(binp))
@@ -189,6 +198,7 @@ def check_property(pid, tier, seed, level="model_checking", extra_assumptions=No
 
 
 def _check(pid, tier, seed, entries, tmp, t0, level, extra_assumptions):
+    os.environ["VERIF_TIER_CURRENT"] = tier
     ovmap = overlay_map()
     ovfile = os.path.join(tmp, "overlay.json")
     json.dump(ovmap, open(ovfile, "w"))
@@ -200,7 +210,7 @@ def _check(pid, tier, seed, entries, tmp, t0, level, extra_assumptions):
             o, jobs = gosym_jobs(e, tier)
             if not jobs:
                 continue
-            futs.append((e, [ex.submit(run_gosym_one, e, ovfile, tmp, o, "z3", fix, tag) for fix, tag in jobs]))
+            futs.append((e, [ex.submit(run_gosym_one, e, ovfile, tmp, o, "z3", fix, tag, tier) for fix, tag in jobs]))
         for e, fs in futs:
             r = merge_results([f.result() for f in fs])
             r["_entry"] = e
@@ -235,7 +245,9 @@ def _check(pid, tier, seed, entries, tmp, t0, level, extra_assumptions):
             errors.append("%s: replay binary failed to build: %s" % (r["harness"], err[-800:]))
             continue
         for i, o in enumerate(r.get("obligations") or []):
-            if o["status"] == "sat" and o.get("model") is not None:
+            if o["status"] == "sat":
+                if o.get("model") is None:
+                    o["model"] = {}  # a violation that depends on no named input (e.g. an unconstrained host value)
                 jobs.append(("viol", r, o, binp, "o%d" % i))
         for label, model in (r.get("cover_models") or {}).items():
             jobs.append(("cover", r, dict(label=label, model=model), binp, "c" + re.sub(r"\W", "_", label)))
